@@ -4,7 +4,7 @@
    - from_dict (class and instance form) establishes / preserves the invariant. *)
 From Coq Require Import ZArith List Bool Lia Arith.
 From BP Require Import Base.Prelude Model.Types Model.Object Model.Eq Model.WellFormed Model.Json.
-From BP Require Import Model.C07Ops Proofs.BytesP Proofs.C07InvP Proofs.C07EncP Proofs.C07ObsP.
+From BP Require Import Model.C07Ops Proofs.BytesP Proofs.C07InvP Proofs.C07EncP Proofs.C07ObsP Proofs.C07HistP Proofs.C07ValP.
 Import ListNotations.
 
 (* the keys of a JSON object *)
@@ -179,4 +179,23 @@ Proof.
   { destruct o as [c raw sow unk cur]. cbn [Json.set_sow]. eapply InvS_flags; eauto. }
   revert H0. generalize (Json.set_sow o). induction kw as [|[i v] kw IH]; intros o0 H0; cbn [fold_left fst snd]; [exact H0|].
   apply IH. apply InvS_setattr. exact H0.
+Qed.
+
+(* ... after every history whose assigned member values are values *)
+Theorem to_dict_observable_reachable cs incl sc c ops o :
+  wf_schema sc = true -> Forall (op_ok sc c) ops -> run7 sc (new sc c) ops = Ok o -> keys_distinct cs sc (ocls o) ->
+  forall g, (g < cngroups (get_class sc (ocls o)))%nat ->
+    match which_one_of o g with
+    | Some i =>
+        exists f, nth_error (cfs sc o) i = Some f /\ In (key_of_field cs f) (jkeys (to_dict cs incl sc o)) /\
+                  forall j f', j <> i -> nth_error (cfs sc o) j = Some f' -> fgroup f' = Some g ->
+                               ~ In (key_of_field cs f') (jkeys (to_dict cs incl sc o))
+    | None =>
+        forall j f', nth_error (cfs sc o) j = Some f' -> fgroup f' = Some g ->
+                     ~ In (key_of_field cs f') (jkeys (to_dict cs incl sc o))
+    end.
+Proof.
+  intros Hwf Hok Er Hkd. apply to_dict_observable; auto.
+  - eapply inv_reachable; eauto.
+  - eapply selected_values_reachable; eauto.
 Qed.
